@@ -128,3 +128,103 @@ def split_frames(vc):
                "getCurrentMissedObservations", "getCurrentTasking", "getFilterSteps", "bulkSave", "_logObservations", "_logMissedObservations", "debug", "info",
                "warning", "items", "append", "keys", "add"}
     vc.ensure("O-C10-output-readonly", _attr_writes(fns["saveDatabaseOutput"]) == [] and calls <= allowed, note=str(sorted(calls - allowed)))
+
+
+SB = "resonaate.scenario.scenario_builder:"
+
+
+class Cfg:
+    """configuration node that records every attribute assignment made by the code under contract; deepcopy yields an independent node"""
+
+    def __init__(self, log, name, **kw):
+        object.__setattr__(self, "_log", log)
+        object.__setattr__(self, "_name", name)
+        for k, v in kw.items():
+            object.__setattr__(self, k, v)
+
+    def __setattr__(self, k, v):
+        self._log.append((self._name, k, v))
+        object.__setattr__(self, k, v)
+
+    def __deepcopy__(self, memo):
+        return Cfg([], self._name + "(copy)", **{k: v for k, v in self.__dict__.items() if not k.startswith("_")})
+
+
+def _config(log):
+    return Cfg(log, "cfg", propagation=Cfg(log, "propagation", propagation_model="TRUTH_MODEL", integration_method="RK45", station_keeping=False,
+                                          target_realtime_propagation=True, sensor_realtime_propagation=True, truth_simulation_only=False),
+               geopotential=Cfg(log, "geopotential", model="egm96.txt", degree=4, order=4), perturbations=Cfg(log, "perturbations", third_bodies=[]),
+               estimation=Cfg(log, "estimation", sequential_filter=Cfg(log, "sequential_filter", dynamics_model="FILTER_MODEL")),
+               time=Cfg(log, "time"), noise=Cfg(log, "noise"), observation=Cfg(log, "observation", background=True, realtime_observation=True))
+
+
+@obligation("C10", "config_frame", ensures=["O-C10-config.truth-dynamics", "O-C10-config.readonly", "O-C10-config.filter-dynamics"],
+            fns=[SC + "Scenario._addTargetConf", SC + "Scenario._addSensorConf", SB + "ScenarioBuilder._initTargets", SB + "ScenarioBuilder._initEstimates", SB + "ScenarioBuilder._initSensors"],
+            mode="Z", bounded="2 agents per constructor call; the order builder/run-time additions are called in is arbitrary because each call is shown to leave the shared settings unchanged",
+            note="frame condition on the shared dynamics settings: every constructor of truth agents (builder and run-time additions) passes the configured propagation/geopotential/perturbation settings - with the configured truth model at the time of the call - to dynamicsFactory and to the agent, and none of these functions assigns any attribute of those shared settings (the filter's dynamics model goes into an independent copy); hence no estimation setting can reach the dynamics of any truth agent, however many agents were built or added before")
+def config_frame(vc):
+    import contextlib
+    from unittest import mock
+    with contextlib.ExitStack() as stack:
+        def install(spec, f):
+            if vc.symbolic:
+                vc.stub(spec, f)
+            else:  # native replay: the same collaborators patched into the real modules, the real compiled constructors run
+                m, q = spec.split(":@")
+                stack.enter_context(mock.patch(m + "." + q, f))
+        _config_frame(vc, install)
+
+
+def _config_frame(vc, install):
+    log, calls = [], []
+    cfg = _config(log)
+
+    def dyn_factory(agent_cfg, prop, geo, pert, clock):
+        calls.append(("dyn", agent_cfg.id, prop, prop.propagation_model, geo, pert, clock))
+        return ("DYN", agent_cfg.id, prop.propagation_model)
+
+    def agent_cls(kind):
+        def fromConfig(**kw):
+            calls.append((kind, kw))
+            return _NS(simulation_id=(kw.get("tgt_cfg") or kw.get("sen_cfg")).id)
+        return _NS(fromConfig=fromConfig)
+    for m in (SC, SB):
+        install(m + "@dynamicsFactory", dyn_factory)
+        install(m + "@TargetAgent", agent_cls("target"))
+        install(m + "@EstimateAgent", agent_cls("estimate"))
+        install(m + "@SensingAgent", agent_cls("sensor"))
+    eng = _NS(addTarget=lambda i: None, addSensor=lambda i: None)
+    scn = vc.new(SC + "Scenario", scenario_config=cfg, clock="CLOCK", target_agents={}, _sensor_agents={}, _estimate_agents={}, _tasking_engines={1: eng}, logger=None)
+    t = [_NS(id=i, sensor=Cfg([], "sensor")) for i in (1, 2, 3, 4)]
+    logger = _NS(info=lambda *a: None)
+    bld = vc.new(SB + "ScenarioBuilder", _config=cfg, clock="CLOCK", validated_target_configs={1: t[0], 2: t[1]}, validated_sensor_configs={3: t[2], 4: t[3]}, logger=logger)
+    truth_ok, filt_ok = [], []
+
+    def check(kind, ids):
+        """truth agents of `kind` built for `ids` by the calls recorded since the last check"""
+        dyn = [c for c in calls if c[0] == "dyn"]
+        ag = [c for c in calls if c[0] == kind]
+        truth_ok.append(len(ag) == len(ids) and all(
+            a[1]["dynamics"] == ("DYN", i, "TRUTH_MODEL") and a[1]["prop_cfg"] is cfg.propagation and a[1]["prop_cfg"].propagation_model == "TRUTH_MODEL"
+            and any(d[1] == i and d[2] is cfg.propagation and d[3] == "TRUTH_MODEL" and d[4] is cfg.geopotential and d[5] is cfg.perturbations for d in dyn)
+            for a, i in zip(ag, ids)))
+        est = [c for c in calls if c[0] == "estimate"]
+        filt_ok.append(all(e[1]["dynamics"][2] == "FILTER_MODEL" and e[1]["estimation_cfg"] is cfg.estimation for e in est))
+        del calls[:]
+    # every order in which a truth constructor can follow an estimate constructor is covered by checking each call separately
+    bld._initEstimates()
+    check("target", [])
+    bld._initTargets()
+    check("target", [1, 2])
+    bld._initSensors()
+    check("sensor", [3, 4])
+    scn._addTargetConf(_NS(id=7), 1)
+    check("target", [7])
+    scn._addTargetConf(_NS(id=8), 1)
+    check("target", [8])
+    scn._addSensorConf(_NS(id=9), 1)
+    check("sensor", [9])
+    vc.ensure("O-C10-config.truth-dynamics", all(truth_ok))
+    vc.ensure("O-C10-config.filter-dynamics", all(filt_ok))
+    shared = [w for w in log if w[0] in ("cfg", "propagation", "geopotential", "perturbations", "estimation", "sequential_filter", "time", "noise")]
+    vc.ensure("O-C10-config.readonly", shared == [] and cfg.propagation.propagation_model == "TRUTH_MODEL", note=str(shared[:3]))
